@@ -23,6 +23,8 @@ def forall(dom, f):
     if n == 1:
         return all(f(x) for x in _dom(dom))
     import itertools
+    if not isinstance(dom, (tuple, str)) and hasattr(dom, "__call__") or type(dom).__name__.endswith("EdgeView"):
+        return all(f(*x) for x in dom) and all(f(*reversed(tuple(x))) for x in dom)
     doms = dom if isinstance(dom, tuple) and len(dom) == n else (dom,) * n
     return all(f(*xs) for xs in itertools.product(*[_dom(d) for d in doms]))
 
@@ -33,6 +35,8 @@ def exists(dom, f):
     if n == 1:
         return any(f(x) for x in _dom(dom))
     import itertools
+    if type(dom).__name__.endswith("EdgeView"):
+        return any(f(*x) for x in dom) or any(f(*reversed(tuple(x))) for x in dom)
     doms = dom if isinstance(dom, tuple) and len(dom) == n else (dom,) * n
     return any(f(*xs) for xs in itertools.product(*[_dom(d) for d in doms]))
 
@@ -71,3 +75,11 @@ def allocated(o):
 
 def exists_w(dom, f, hint=None):
     return exists(dom, f)
+
+
+def ball(G, centers, k):
+    """atoms within k bonds of the centre set (the spec function behind `find_nearest_neighbors`)"""
+    S = set(centers)
+    for _ in range(k):
+        S = S | {w for n in S for w in G.neighbors(n)}
+    return S
